@@ -105,6 +105,7 @@ type MyHost struct {
 	ReplMonTS float64 // unix ts in repl_mon table; 0 = table missing
 	IOFailCount int // the next n starts of the IO thread fail with a transient error (1045)
 	KillIneffective bool // KILL does not release sessions waiting for a semi-sync ack (stuck commits)
+	Stalled bool // both replication threads report "running" but nothing is fetched or applied (slow disk, long transaction)
 }
 
 // HostView is the cheap projected state written into traces.
@@ -590,7 +591,7 @@ func (w *MyWorld) Fetch(rn string, max int) int {
 }
 
 func (w *MyWorld) fetchLocked(r *MyHost, max int) int {
-	if r == nil || !r.Up || r.Src == "" || r.IO != "Yes" {
+	if r == nil || !r.Up || r.Src == "" || r.IO != "Yes" || r.Stalled {
 		return 0
 	}
 	src := w.Hosts[r.Src]
@@ -625,7 +626,7 @@ func (w *MyWorld) Apply(rn string, max int) int {
 }
 
 func (w *MyWorld) applyLocked(r *MyHost, max int) int {
-	if r == nil || !r.Up || !r.SQL {
+	if r == nil || !r.Up || !r.SQL || r.Stalled {
 		return 0
 	}
 	n := 0
